@@ -118,8 +118,59 @@ def compare(kind, toks, t, m, r):
     return None
 
 
+def real_alias(text):
+    try:
+        d = parse_string(text)
+    except (impl.CxxParseError, AssertionError, RecursionError):
+        return ('err',)
+    ns = d.namespace
+    if len(ns.using_alias) != 1 or ns.variables or ns.functions or ns.typedefs or ns.classes:
+        return ('other',)
+    try:
+        return ('ok', 'A', decl.from_real(ns.using_alias[0].type))
+    except decl.Unrepresentable:
+        return ('other',)
+
+
+def correspond_alias(ctx, corr):
+    """the alias type-id model (alias_type) vs `using A = ...;`"""
+    rng = ctx.rng
+    cases = []
+    for _ in range(ctx.scale(600, 12000)):
+        while True:
+            t = decl.rand_type(rng, rng.choice([0, 1, 2, 3, 5, 7]))
+            if t[0] != 'F' and not decl.is_void(t):
+                break
+        toks = decl.print_decl(t, None) + [';']
+        cases.append(('alias-valid', toks, t))
+        if rng.random() < 0.5:
+            cases.append(('alias-mutated', mutate(rng, toks[:-1]) + [';'], None))
+    lines, nms = [], []
+    for _, toks, _ in cases:
+        names = decl.Names()
+        lines.append([86] + decl.enc_tokens(toks, names))
+        nms.append(names)
+    outs = run_driver(lines)
+    for (kind, toks, t), o, names in zip(cases, outs, nms):
+        corr.cases += 1
+        if o[0] == 0:
+            mt, _ = decl.dec_type(o, 3, names)
+            m = ('ok', 'A', mt, o[2])
+        else:
+            m = ('err', o[1])
+        r = real_alias('using A = ' + ' '.join(toks))
+        key = kind + ":" + (m[0] if m[0] == 'ok' else 'err%d' % m[1]) + "/" + r[0]
+        corr.dist[key] = corr.dist.get(key, 0) + 1
+        msg = compare(kind, toks, t, m, r)
+        if msg is None and kind == 'alias-valid' and (m[0] != 'ok' or m[2] != t):
+            msg = "model does not decode the printed type-id `%s`" % ' '.join(toks)
+        if msg:
+            corr.disagreements.append(dict(case=dict(kind='corr-alias', tokens=toks), model=str(m)[:300], impl=str(r)[:300], what="alias: " + msg))
+
+
 def correspond(ctx):
     corr = Corr()
+    correspond_alias(ctx, corr)
     cases = corr_cases(ctx)
     ms = model_var([c[1] for c in cases])
     for (kind, toks, t), m in zip(cases, ms):
@@ -440,6 +491,12 @@ def search(ctx, boost=False):
 
 def replay(ctx, case):
     k = case.get("kind")
+    if k == 'corr-alias':
+        names = decl.Names()
+        o = run_driver([[86] + decl.enc_tokens(case["tokens"], names)])[0]
+        m = ('ok', 'A', decl.dec_type(o, 3, names)[0], o[2]) if o[0] == 0 else ('err', o[1])
+        msg = compare('replay', case["tokens"], None, m, real_alias('using A = ' + ' '.join(case["tokens"])))
+        return [msg] if msg else []
     if k == 'corr':
         toks = case["tokens"]
         m = model_var([toks])[0]
